@@ -1,12 +1,13 @@
 // Package c17: base fee follows EIP-1559 and stays within its bounds.
 //
 // Three exhaustive parts, all on the real fee-market keeper:
-//   fn       full cartesian grid over (base, block gas limit, elasticity, denominator, min gas
-//            price, g) through the real CalculateBaseFee, against a math/big transcription of the
-//            statement, plus monotonicity in g on every adjacent pair of the g axis;
-//   endblock grid over (gasWanted, gasUsed, multiplier) through the real EndBlock;
-//   history  E1 exploration of all sequences <= depth of blocks with chosen gas figures through
-//            real EndBlock/BeginBlock, against the reference recurrence.
+//
+//	fn       full cartesian grid over (base, block gas limit, elasticity, denominator, min gas
+//	         price, g) through the real CalculateBaseFee, against a math/big transcription of the
+//	         statement, plus monotonicity in g on every adjacent pair of the g axis;
+//	endblock grid over (gasWanted, gasUsed, multiplier) through the real EndBlock;
+//	history  E1 exploration of all sequences <= depth of blocks with chosen gas figures through
+//	         real EndBlock/BeginBlock, against the reference recurrence.
 package c17
 
 import (
@@ -15,9 +16,9 @@ import (
 	"sort"
 	"time"
 
+	sdkmath "cosmossdk.io/math"
 	abci "github.com/cometbft/cometbft/abci/types"
 	tmproto "github.com/cometbft/cometbft/proto/tendermint/types"
-	sdkmath "cosmossdk.io/math"
 	storetypes "github.com/cosmos/cosmos-sdk/store/types"
 	sdk "github.com/cosmos/cosmos-sdk/types"
 
@@ -110,10 +111,12 @@ func partFn(res *engine.Result, tier string, shard, n int) {
 	}
 	idx := 0
 	for _, base := range bases {
-		mgps := []sdk.Dec{sdk.ZeroDec(), sdk.NewDecWithPrec(5, 1), sdk.OneDec(),
-			sdk.NewDecFromBigInt(new(big.Int).Add(base, big.NewInt(1))), sdk.NewDecFromBigInt(base),
-			sdk.NewDecFromBigInt(pow2(220))}
-		if base.Sign() > 0 {
+		mgps := []sdk.Dec{sdk.ZeroDec(), sdk.NewDecWithPrec(5, 1), sdk.OneDec(), sdk.NewDecFromBigInt(pow2(220))}
+		// min gas prices around the base fee, where an 18-decimals Dec can hold them (about 2^255 / 10^18)
+		if base.BitLen() <= 250 {
+			mgps = append(mgps, sdk.NewDecFromBigInt(new(big.Int).Add(base, big.NewInt(1))), sdk.NewDecFromBigInt(base))
+		}
+		if base.Sign() > 0 && base.BitLen() <= 250 {
 			mgps = append(mgps, sdk.NewDecFromBigInt(new(big.Int).Sub(base, big.NewInt(1))),
 				sdk.NewDecFromBigInt(base).Sub(sdk.NewDecWithPrec(5, 1)))
 		}
@@ -216,7 +219,7 @@ func evalRow(w *world.World, res *engine.Result, base *big.Int, limit int64, el,
 		viol := func(breach, what string) {
 			res.AddViolation(engine.Violation{
 				Signature: fmt.Sprintf("C17|part=fn|branch=%s|breach=%s", branch, breach), What: what,
-				Path: []string{fmt.Sprintf("base=%s limit=%d elasticity=%d denom=%d mgp=%s g=%d", base, limit, el, dn, mgp, g)},
+				Path:   []string{fmt.Sprintf("base=%s limit=%d elasticity=%d denom=%d mgp=%s g=%d", base, limit, el, dn, mgp, g)},
 				Detail: map[string]any{"got": fmt.Sprint(got), "want": want.String(), "panic": panicked},
 			})
 		}
@@ -260,7 +263,7 @@ func partEndBlock(res *engine.Result, tier string) {
 	k := w.App.FeeMarketKeeper
 	vals := []uint64{0, 1, 2, 3, 20999, 21000, 21001, 100000, 1 << 40, 1<<63 - 1}
 	if tier == "thorough" {
-		vals = append(vals, 7, 99, 42000, 1<<62 + 1, 1 << 63, ^uint64(0))
+		vals = append(vals, 7, 99, 42000, 1<<62+1, 1<<63, ^uint64(0))
 	}
 	mults := []string{"0", "0.5", "1", "0.000000000000000001", "0.999999999999999999"}
 	for _, ms := range mults {
@@ -424,7 +427,7 @@ func Run(tier string) int {
 	res.Sample(map[string]any{"fn": "base=100 limit=100 elasticity=2 denom=8 mgp=0 g in {0,1,49,50,51,100,2^64-1}", "history": []string{"fixture=base1000-mgp900-lim100", "block(gw=100,gu=0)", "block(gw=0,gu=0)", "block(gw=100,gu=100)"}})
 	return engine.Finish(res, engine.Meta{
 		Property: Prop, Tier: tier, Level: "model_checking", Start: start,
-		Rule: "fn: full cartesian grid of boundary values through the real CalculateBaseFee vs a math/big reference, monotone on adjacent g; endblock: full (gasWanted,gasUsed,multiplier) grid through the real EndBlock; history: all sequences <= depth of blocks with chosen gas figures through real EndBlock/BeginBlock on 3 parameter fixtures. Non-trivial = grid point off the g=T=unchanged axis / block with distinct (base, g)",
+		Rule:   "fn: full cartesian grid of boundary values through the real CalculateBaseFee vs a math/big reference, monotone on adjacent g; endblock: full (gasWanted,gasUsed,multiplier) grid through the real EndBlock; history: all sequences <= depth of blocks with chosen gas figures through real EndBlock/BeginBlock on 3 parameter fixtures. Non-trivial = grid point off the g=T=unchanged axis / block with distinct (base, g)",
 		Bounds: map[string]any{"history_depth": map[string]int{"quick": 3, "thorough": 4}},
 		Assumptions: []string{
 			"monotonicity is required only where base >= floor(minGasPrice): below it the statement's own clauses are incompatible with monotonicity (recorded as an observation)",
